@@ -1044,6 +1044,8 @@ package raft
 
 //@ func snapshotFile.Discard
 //@   ensures [keeps-published] old(s.file) == nil ==> err == nil
+// a discarded writer is never renamed into place (the rename is what publishes a snapshot)
+//@   ensures [never-publishes] renames == old(renames)
 
 // ===========================================================================================
 // C18: totality of the public API (no panic / abort; futures answered or tabled)
